@@ -157,6 +157,31 @@ def gen_op(tp, st, inner=False):
             # a large list streamed by send_list in /b_setn chunks
             return ['bsendlist', b, tp.choice([100, 1626, 1627, 2048, 3252,
                                                4000]), tp.draw(3)]
+        if k == 5 and tp.draw(2):
+            # sound file and fill commands (the server is not there to do
+            # them: only the command is looked at)
+            j = tp.draw(7)
+            if j == 0:
+                return ['bfile', 'cue', b, tp.choice([0, 0, 100, 44100])]
+            if j == 1:
+                return ['bfile', 'read', b, tp.choice([0, 10]),
+                        tp.choice([-1, 512]), tp.choice([0, 16]),
+                        bool(tp.draw(2))]
+            if j == 2:
+                return ['bfile', 'write', b, tp.choice([-1, 256]),
+                        tp.choice([0, 32]), bool(tp.draw(2))]
+            if j == 3:
+                return ['bfile', 'close', b]
+            if j == 4 and len(st['buf']) > 1:
+                return ['bfile', 'copy', b, tp.choice(st['buf']),
+                        tp.choice([0, 8]), tp.choice([0, 4]),
+                        tp.choice([-1, 64])]
+            if j == 5:
+                return ['bfile', 'normalize', b, tp.choice([1, 0.5]),
+                        bool(tp.draw(2))]
+            return ['bfile', 'sine1', b,
+                    [tp.choice([1, 0.5, 0.25]) for _ in range(1 + tp.draw(3))],
+                    bool(tp.draw(2)), bool(tp.draw(2)), bool(tp.draw(2))]
         if isinstance(b, str):
             # consecutive buffers are one allocation: the documentation
             # requires treating them as a group (only free_all)
@@ -663,7 +688,8 @@ def run_world(case, tape, ctx, w):
             arg, wire = completion(op[4] if len(op) > 4 else None)
             b = sbuf.Buffer(frames, ch, s, completion_msg=arg)
             real[bid] = b
-            model[bid] = {'kind': 'buf', 'id': b.bufnum, 'live': True}
+            model[bid] = {'kind': 'buf', 'id': b.bufnum, 'live': True,
+                          'frames': frames}
             bump('buffer-created')
             return [('m', ['/b_alloc', b.bufnum, frames, ch,
                            wire(b.bufnum)])]
@@ -675,7 +701,7 @@ def run_world(case, tape, ctx, w):
             for i, b in enumerate(bs):
                 real[f'{bid}.{i}'] = b
                 model[f'{bid}.{i}'] = {'kind': 'buf', 'id': b.bufnum,
-                                       'live': True}
+                                       'live': True, 'frames': frames}
                 if b.bufnum != base + i:
                     viol.add('C17-3', 'consecutive-buffers-not-consecutive',
                              f'new_consecutive({cnt}) gave buffer numbers '
@@ -683,6 +709,51 @@ def run_world(case, tape, ctx, w):
                 exp.append(('m', ['/b_alloc', b.bufnum, frames, ch, 0]))
             bump('consecutive-buffers')
             return exp
+        if kind == 'bfile':
+            sub = op[1]
+            b = real.get(op[2])
+            if b is None or not model[op[2]]['live']:
+                return []
+            num = model[op[2]]['id']
+            path = '/tmp/verif-sound.aiff'
+            bump('buffer-' + sub)
+            if sub == 'cue':
+                # Server Command Reference: /b_read bufnum path fileStart
+                # numFrames bufStart leaveOpen completion; cueing fills the
+                # whole buffer from its start and leaves the file open
+                b.cue(path, op[3])
+                return [('m', ['/b_read', num, path, op[3],
+                               model[op[2]].get('frames', 0), 0, 1, 0])]
+            if sub == 'read':
+                b.read(path, op[3], op[4], op[5], op[6])
+                q = ['/b_query', num]
+                return [('m', ['/b_read', num, path, op[3], op[4], op[5],
+                               int(op[6]),
+                               osc.encode_message(q[0], q[1:]) if rt else q])]
+            if sub == 'write':
+                b.write(path, 'aiff', 'int24', op[3], op[4], op[5])
+                return [('m', ['/b_write', num, path, 'aiff', 'int24', op[3],
+                               op[4], int(op[5]), 0])]
+            if sub == 'close':
+                b.close()
+                return [('m', ['/b_close', num, 0])]
+            if sub == 'copy':
+                d = real.get(op[3])
+                if d is None or not model[op[3]]['live']:
+                    return []
+                b.copy_data(d, op[4], op[5], op[6])
+                return [('m', ['/b_gen', model[op[3]]['id'], 'copy', op[4],
+                               num, op[5], op[6]])]
+            if sub == 'normalize':
+                b.normalize(op[3], op[4])
+                return [('m', ['/b_gen', num,
+                               'wnormalize' if op[4] else 'normalize',
+                               op[3]])]
+            if sub == 'sine1':
+                b.sine1(list(op[3]), op[4], op[5], op[6])
+                flags = int(op[4]) + 2 * int(op[5]) + 4 * int(op[6])
+                return [('m', ['/b_gen', num, 'sine1', flags] + list(op[3]))]
+            return []
         if kind == 'bfreegroup':
             out = []
             for i in op[2]:
